@@ -199,6 +199,8 @@ def warp_union(ctx: Ctx) -> None:
         bound_before = all(any(e.kind == "bind" and isinstance(e.target, ast.Name) and e.target.id == nm and not e.loops and not any(x.kind == "for" for x in s_.effects[:i]) for i, e in enumerate(s_.effects))
                            for s_ in csums for nm in (S, E))
         if not fresh and not bound_before:
+            if _segment_pairs(ctx, cw, csums, S, E):
+                return
             raise AnalysisError(f"{cw.fq}: the two event lists are built only after the warps were walked - the segments are kept in another representation, which this rule does not model")
         ctx.expect("R-TABLE", cw, "both lists start empty", fresh, "", f"{S} / {E} are not fresh BeatValues() before the loop", node=cw.node)
         wl = {(ast.unparse(e.target), e.line) for s_ in csums for e in s_.effects if e.kind == "for" and ast.unparse(e.value) == f"{cw.param_names()[0]}.timing_data.warps"}
@@ -247,89 +249,157 @@ def warp_union(ctx: Ctx) -> None:
                    why="the WARP / WARP_END events must alternate and cover exactly the union of the warps")
 
 
+def _segment_pairs(ctx: Ctx, cw, csums, S: str, E: str) -> bool:
+    """The other representation of _coalesce_warps: one list of (start, end) pairs filled while the warps are walked, the two event lists built
+    from it afterwards.  Same decision table, on the pair list: a warp starting at or before the last pair's end extends that pair when it ends
+    later, any other warp appends a new pair; starts / ends are the pairs' first / second components as zero-valued events."""
+    from .tables import judge as tjudge, loop_decs, sums_of as tsums, closed as _cl
+    sp = cw.param_names()[0]
+    wl = {(ast.unparse(e.target), e.line) for s_ in csums for e in s_.effects if e.kind == "for" and ast.unparse(e.value) == f"{sp}.timing_data.warps"}
+    if len(wl) != 1:
+        return False
+    w, line = next(iter(wl))
+    cands = set()
+    for s_ in csums:
+        for e in s_.effects:
+            if e.kind == "expr" and line in e.loops and isinstance(e.value, ast.Call) and isinstance(e.value.func, ast.Attribute) and e.value.func.attr == "append" \
+                    and isinstance(e.value.func.value, ast.Name) and len(e.value.args) == 1 and isinstance(e.value.args[0], ast.Tuple) and len(e.value.args[0].elts) == 2:
+                cands.add(e.value.func.value.id)
+    if len(cands) != 1:
+        return False
+    L = next(iter(cands))
+    fresh = all(any(e.kind == "bind" and isinstance(e.target, ast.Name) and e.target.id == L and e.value is not None and ast.unparse(e.value) == "[]" and not e.loops for e in s_.effects) for s_ in csums)
+    ctx.expect("R-TABLE", cw, "the segment list starts empty", fresh, "", f"{L} is not a fresh [] before the loop", node=cw.node)
+    WEND = f"{w}.beat + Beat({w}.value)"
+    LAST = f"{L}[-1][1]"
+    A, Bc, C = L, f"{w}.beat <= {LAST}", f"{WEND} > {LAST}"
+
+    def spec(a):
+        if a[A] and a[Bc]:
+            return (f"{L}[-1] = ({L}[-1][0], {WEND})",) if a[C] else ()
+        return (f"{L}.append(({w}.beat, {WEND}))",)
+
+    from .tables import touches as _touches
+    decs = loop_decs(csums, line, [L], relevant=lambda e: e.kind != "bind" and _touches(e, [L]))
+    tjudge(ctx, "R-TABLE", cw, "overlapping or touching warps act as their union: a warp starting at or before the last end extends it when it ends later (<=, >); any other warp starts a new segment", decs,
+           [A, Bc, C], spec, equiv={f"len({L}) > 0": (A, True)}, why="the WARP / WARP_END events must alternate and cover exactly the union of the warps")
+    # the two event lists: the pairs' components as zero-valued events, in order
+    forms = {}
+    for s_ in csums:
+        for nm, idx in ((S, 0), (E, 1)):
+            r = s_.resolve(nm, len(s_.effects))
+            if r is not None and r[1].value is not None:
+                forms.setdefault(nm, set()).add(ast.unparse(_cl(s_, r[1].value, r[0])))
+    want_s = f"BeatValues((BeatValue(beat=_c0, value=Decimal(0)) for _c0, _c1 in {L}))"
+    want_e = f"BeatValues((BeatValue(beat=_c1, value=Decimal(0)) for _c0, _c1 in {L}))"
+    ok = forms.get(S) == {want_s} and forms.get(E) == {want_e}
+    ctx.expect("R-TABLE", cw, "WARP events are the segments' starts and WARP_END events their ends (zero-valued, in segment order)", ok, "", f"starts: {sorted(forms.get(S, []))}; ends: {sorted(forms.get(E, []))}", node=cw.node)
+    return True
+
+
 def event_pairing(ctx: Ctx) -> None:
+    """C11.2: how the timeline is built, read off the path effects of _retime_events (helpers inlined, temporaries resolved, comprehension / map /
+    loop spellings canonical): the initial state; the (events, tag) pairs; every event tagged with its list's tag; the lists merged by
+    TaggedEvent order; every merged event fed to the state machine in order; a first BPM that is not on beat 0 refused."""
     p = ctx.p
     f = p.func(f"{TE}._retime_events")
     sn = f.param_names()[0]
-    loc = locals_of(f)
-    from .tables import list_items, sums_of as tsums0
+    from .tables import closed, list_items, sums_of as tsums0, terminal_text
     fsums = tsums0(ctx, f)
     require(bool(fsums), f"{f.fq}: no path")
-    s0 = max(fsums, key=lambda s_: len(s_.effects))
-    cands = {}
-    for nm in {e.target.id for e in s0.effects if e.kind == "bind" and isinstance(e.target, ast.Name)}:
-        it = list_items(s0, nm)
-        if it and any(k == "elem" and isinstance(e, ast.Tuple) and len(e.elts) == 2 and "EventTag." in ast.unparse(e.elts[1]) for k, e in it):
-            cands[nm] = it
-    require(len(cands) == 1, f"{f.fq}: expected exactly one list of (events, tag) pairs, found {sorted(cands)}")
-    lname, items = next(iter(cands.items()))
-    pairs = []
-    starred = []
-    for k, e in items:
-        if k == "splice":
-            starred.append(ast.unparse(e))
+    ok_paths = [s_ for s_ in fsums if s_.end != "raise"]
+    require(bool(ok_paths), f"{f.fq}: no path that builds the timeline")
+    INIT = (f"TimingStateMachine([TimingState(event=TimedEvent(beat=Beat(0), value={sn}.timing_data.bpms[0].value, tag=EventTag.BPM, time=SongTime(-{sn}.timing_data.offset)), "
+            f"bpm={sn}.timing_data.bpms[0].value, warp=False)])")
+    FIRST0 = f"{sn}.timing_data.bpms[0].beat == 0"
+    from ..decide import key as _ck
+    inits, streams, bodies, pair_sets, starred_sets = set(), set(), set(), [], []
+    unresolved_names = set()
+    for s_ in ok_paths:
+        for i, e in enumerate(s_.effects):
+            if e.kind == "store" and ast.unparse(e.target) == f"{sn}._state_machine":
+                inits.add(ast.unparse(closed(s_, e.value, i)))
+        loops = [(i, e) for i, e in enumerate(s_.effects) if e.kind == "for" and any(x.kind == "expr" and e.line in x.loops and ".advance(" in x.text for x in s_.effects)]
+        if not loops:
             continue
-        require(isinstance(e, ast.Tuple) and len(e.elts) == 2, f"{f.fq}: pair {src(e)} has an unrecognised shape")
-        s0_ = e.elts[0]
-        if isinstance(s0_, ast.Call) and isinstance(s0_.func, ast.Name) and s0_.func.id == "cast" and len(s0_.args) == 2:
-            s0_ = s0_.args[1]
-        t = try_ev(ctx, f, e.elts[1])
-        pairs.append((ast.unparse(s0_), t.name if isinstance(t, EnumVal) else src(e.elts[1])))
-    spec = [(f"{sn}.timing_data.bpms[1:]", "BPM"), (f"{sn}.timing_data.delays", "DELAY"), (f"{sn}.timing_data.delays", "DELAY_END"),
-            (f"{sn}.timing_data.stops", "STOP"), (f"{sn}.timing_data.stops", "STOP_END")]
-    ctx.expect("R-TABLE", f, "event lists are paired with their tags (bpms[1:]/BPM, delays/DELAY+DELAY_END, stops/STOP+STOP_END)", sorted(pairs) == sorted(spec), str(pairs),
-               f"pairs are {pairs}; expected {spec}", node=f.node)
-    ctx.expect("R-TABLE", f, "coalesced warps are part of the event stream", starred == [f"{sn}._coalesce_warps()"], str(starred), f"starred: {starred}", node=f.node)
+        i, lp = loops[0]
+        it = closed(s_, lp.value, i)
+        tgt = ast.unparse(lp.target)
+        body = tuple(x.text for x in s_.effects if lp.line in x.loops and x.kind in ("expr", "store", "aug", "delete", "break", "continue", "return", "raise"))
+        bodies.add(tuple(t.replace(tgt, "EVENT") for t in body))
+        # merge(*[[TaggedEvent(beat=E.beat, value=E.value, tag=T) for E in EVS] for EVS, T in <pairs>])
+        shape = None
+        pairs_name = None
+        wrapped = isinstance(it, ast.Call) and not callee_name_text(it).endswith("merge") and any(isinstance(n, ast.Call) and callee_name_text(n).endswith("merge") for n in ast.walk(it))
+        if wrapped:
+            shape = f"{callee_name_text(it)}(...) around the merged stream"  # re-ordered / filtered after merging: a definite deviation
+        if isinstance(it, ast.Call) and callee_name_text(it).endswith("merge") and len(it.args) == 1 and isinstance(it.args[0], ast.Starred) and not it.keywords:
+            outer = it.args[0].value
+            if isinstance(outer, ast.Name):
+                from .tables import loop_built as _lb
+                lb = _lb(s_, outer.id, i)
+                if lb is not None:
+                    outer = closed(s_, lb, i)
+                else:
+                    unresolved_names.add(outer.id)
+            if isinstance(outer, ast.ListComp) and len(outer.generators) == 1 and not outer.generators[0].ifs and isinstance(outer.generators[0].target, ast.Tuple) and len(outer.generators[0].target.elts) == 2:
+                ev_v, tag_v = [ast.unparse(x) for x in outer.generators[0].target.elts]
+                inner = outer.elt
+                if isinstance(inner, ast.ListComp) and len(inner.generators) == 1 and isinstance(inner.generators[0].target, ast.Name) \
+                        and ast.unparse(inner.generators[0].iter) == ev_v:
+                    x_v = inner.generators[0].target.id
+                    shape = ast.unparse(inner.elt).replace(x_v, "E").replace(tag_v, "TAG")
+                    if inner.generators[0].ifs:
+                        shape += " only if " + " and ".join(ast.unparse(c).replace(x_v, "E") for c in inner.generators[0].ifs)  # events are filtered: a definite deviation
+                    src_ = outer.generators[0].iter
+                    pairs_name = src_
+        if shape is None and isinstance(it, ast.Call) and callee_name_text(it).endswith("merge") and (it.keywords or len(it.args) != 1):
+            shape = "merge with " + ", ".join(["%d positional argument(s)" % len(it.args)] + [f"{k.arg}=..." for k in it.keywords if k.arg])  # a definite deviation
+        streams.add(shape or ("? " + ast.unparse(it)[:160]))
+        if pairs_name is not None:
+            items = None
+            if isinstance(pairs_name, ast.Name):
+                items = list_items(s_, pairs_name.id)
+            elif isinstance(pairs_name, (ast.List, ast.Tuple)):
+                items = [("splice", x.value) if isinstance(x, ast.Starred) else ("elem", x) for x in pairs_name.elts]
+            if items is not None:
+                prs, stars = [], []
+                for k, x in items:
+                    if k == "splice":
+                        stars.append(ast.unparse(closed(s_, x, i)))
+                        continue
+                    x = closed(s_, x, i)
+                    if isinstance(x, ast.Tuple) and len(x.elts) == 2:
+                        t = try_ev(ctx, f, x.elts[1])
+                        prs.append((ast.unparse(x.elts[0]), t.name if isinstance(t, EnumVal) else ast.unparse(x.elts[1])))
+                    else:
+                        prs.append((ast.unparse(x), "?"))
+                pair_sets.append(sorted(prs))
+                starred_sets.append(stars)
+    ctx.expect("R-TABLE", f, "the timeline starts at beat 0, time -offset, first BPM, outside any warp", inits == {INIT}, "", f"the state machine is initialised with {sorted(inits)}", node=f.node)
+    # a path on which the list of lists stayed empty (its building loop did not run) shows nothing; the paths on which it ran are judged
+    recognised = {x for x in streams if not x.startswith("? ")}
+    if recognised:
+        streams = {x for x in streams if not (x.startswith("? merge(*") and x[len("? merge(*"):-1] in unresolved_names)} or streams
+    if any(x.startswith("? ") for x in streams):
+        raise AnalysisError(f"{f.fq}: the merged event stream has a shape that is not recognised: {sorted(streams)}")
+    ctx.expect("R-REBUILD", f, "a tagged event keeps the event's beat and value and takes the list's tag; the per-kind lists are merged by TaggedEvent order (heapq.merge, no key / reverse)",
+               streams == {"TaggedEvent(beat=E.beat, value=E.value, tag=TAG)"}, str(sorted(streams)), f"the merged stream is built from {sorted(streams)}", node=f.node)
+    spec = sorted([(f"{sn}.timing_data.bpms[1:]", "BPM"), (f"{sn}.timing_data.delays", "DELAY"), (f"{sn}.timing_data.delays", "DELAY_END"),
+                   (f"{sn}.timing_data.stops", "STOP"), (f"{sn}.timing_data.stops", "STOP_END")])
+    if not pair_sets:
+        raise AnalysisError(f"{f.fq}: the list of (events, tag) pairs is not recognised (merged stream: {sorted(streams)})")
+    ctx.expect("R-TABLE", f, "event lists are paired with their tags (bpms[1:]/BPM, delays/DELAY+DELAY_END, stops/STOP+STOP_END)", all(ps == spec for ps in pair_sets), str(pair_sets[0]),
+               f"pairs are {pair_sets[0]}; expected {spec}", node=f.node)
+    ctx.expect("R-TABLE", f, "coalesced warps are part of the event stream", all(st == [f"{sn}._coalesce_warps()"] for st in starred_sets), str(starred_sets[0]), f"starred: {starred_sets[0]}", node=f.node)
     warp_union(ctx)
-    # initial state
-    cons = record_constructions(ctx, f, f"{ENG}.TimingState")
-    c = one(cons, f"initial TimingState in {f.fq}")
-    fm = field_map(ctx, f"{ENG}.TimingState", c)
-    evc = fm.get("event")
-    oki = False
-    if isinstance(evc, ast.Call) and callee_name(ctx, f, evc) == f"{ENG}.TimedEvent":
-        em = field_map(ctx, f"{ENG}.TimedEvent", evc)
-        first = None
-        for name, bs in loc.b.items():
-            for b in bs:
-                if b.kind == "assign" and ast.unparse(b.value) == f"{sn}.timing_data.bpms[0]":
-                    first = name
-        tagv = try_ev(ctx, f, em.get("tag"))
-        oki = (first is not None and ast.unparse(em.get("beat")) == "Beat(0)" and ast.unparse(em.get("value")) == f"{first}.value"
-               and isinstance(tagv, EnumVal) and tagv.name == "BPM" and ast.unparse(em.get("time")) == f"SongTime(-{sn}.timing_data.offset)"
-               and ast.unparse(fm.get("bpm")) == f"{first}.value" and try_ev(ctx, f, fm.get("warp")) is False)
-    ctx.expect("R-TABLE", f, "the timeline starts at beat 0, time -offset, first BPM, outside any warp", oki, "", f"{src(c, 200)}", node=c)
-    # the merged stream feeds the state machine in order
-    tcons = record_constructions(ctx, f, f"{ENG}.TaggedEvent")
-    tc = one(tcons, f"TaggedEvent construction in {f.fq}")
-    tm = field_map(ctx, f"{ENG}.TaggedEvent", tc)
-    lam = parent(f, tc)
-    a = None
-    if isinstance(lam, ast.Lambda) and len(lam.args.args) == 1:
-        a = lam.args.args[0].arg
-    elif isinstance(lam, (ast.ListComp, ast.GeneratorExp)) and len(lam.generators) == 1 and isinstance(lam.generators[0].target, ast.Name) and not lam.generators[0].ifs:
-        a = lam.generators[0].target.id
-    okt = a is not None
-    if okt:
-        okt = ast.unparse(tm.get("beat")) == f"{a}.beat" and ast.unparse(tm.get("value")) == f"{a}.value" and isinstance(tm.get("tag"), ast.Name)
-    ctx.expect("R-REBUILD", f, "a tagged event keeps the event's beat and value and takes the list's tag", okt, "", f"{src(tc)}", node=tc)
-    mg = [c_ for c_ in calls(f) if callee_name(ctx, f, c_).endswith("heapq.merge")]
-    okm = len(mg) == 1 and len(mg[0].args) == 1 and isinstance(mg[0].args[0], ast.Starred) and not mg[0].keywords
-    ctx.expect("R-BISECT", f, "the per-kind lists are merged by TaggedEvent order (heapq.merge, no key/reverse)", okm, "", "", node=f.node)
-    adv = [c_ for c_ in method_calls(f, "advance")]
-    oka = False
-    if len(adv) == 1 and mg:
-        lp = [l for l in for_loops(f) if in_body(l, adv[0])]
-        if len(lp) == 1 and isinstance(lp[0].iter, ast.Name):
-            it = inline(lp[0].iter, f)
-            oka = ast.unparse(it) == ast.unparse(inline(mg[0], f)) and isinstance(adv[0].args[0], ast.Name) and adv[0].args[0].id == lp[0].target.id \
-                and not [n for st in lp[0].body for n in walk_no_nested(st) if isinstance(n, (ast.Continue, ast.Break))]
-    ctx.expect("R-ORDER", f, "every merged event advances the state machine, in merge order", oka, "", "", node=f.node)
+    ctx.expect("R-ORDER", f, "every merged event advances the state machine, in merge order", bodies == {(f"{sn}._state_machine.advance(EVENT)",)}, str(sorted(bodies)),
+               f"per merged event the loop does {sorted(bodies)}", node=f.node)
     # first BPM must sit on beat 0
-    rs = [r_ for r_ in body_walk(f.node) if isinstance(r_, ast.Raise)]
-    okf = any(any(pol and isinstance(a, ast.Compare) and isinstance(a.ops[0], ast.NotEq) and ast.unparse(a.left).endswith(".beat") and try_ev(ctx, f, a.comparators[0]) == 0
-                  for a, pol in facts(ctx, f, r_)) for r_ in rs)
-    ctx.expect("R-TABLE", f, "timing data whose first BPM is not on beat 0 is refused", okf, "", "", node=f.node)
+    refused = [s_ for s_ in fsums if s_.end == "raise"]
+    okf = bool(refused) and all(dict(s_.plain_assign()).get(_ck(FIRST0)) is False for s_ in refused) and all(dict(s_.plain_assign()).get(_ck(FIRST0)) is True for s_ in ok_paths) \
+        and all(terminal_text(s_) == "raise ValueError" for s_ in refused)
+    ctx.expect("R-TABLE", f, "timing data whose first BPM is not on beat 0 is refused", okf, "", f"refusing paths: {[dict(s_.plain_assign()) for s_ in refused]}", node=f.node)
 
 
 # ---------------------------------------------------------------------------
@@ -352,6 +422,16 @@ def bisect_rule(ctx: Ctx, method: str, list_attr: str) -> None:
     stores = [n for n in body_walk(rt.node) if isinstance(n, ast.Assign) and len(n.targets) == 1 and self_attr(n.targets[0], rt.param_names()[0]) == list_attr]
     st = one(stores, f"construction of self.{list_attr} in {rt.fq}")
     v = st.value
+    # the stored value as a closed form (temporaries resolved, map / loop / comprehension spellings canonical)
+    from .tables import closed as _closed_b, sums_of as _tsums_b
+    forms_b = {}
+    for s_ in _tsums_b(ctx, rt):
+        for i_, e_ in enumerate(s_.effects):
+            if e_.kind == "store" and ast.unparse(e_.target) == f"{rt.param_names()[0]}.{list_attr}":
+                c_ = _closed_b(s_, e_.value, i_)
+                forms_b[ast.unparse(c_)] = c_
+    if len(forms_b) == 1:
+        v = next(iter(forms_b.values()))
     proj = None
     seq = None
     if isinstance(v, ast.Call) and isinstance(v.func, ast.Name) and v.func.id == "list" and len(v.args) == 1:
@@ -364,7 +444,7 @@ def bisect_rule(ctx: Ctx, method: str, list_attr: str) -> None:
     elif isinstance(v, ast.ListComp) and isinstance(v.elt, ast.Tuple) and len(v.generators) == 1:
         proj = [e.attr if isinstance(e, ast.Attribute) else src(e) for e in v.elt.elts]
         seq = v.generators[0].iter
-    require(proj is not None, f"{rt.fq}: construction of self.{list_attr} has an unrecognised shape: {src(st.value)}")
+    require(proj is not None, f"{rt.fq}: construction of self.{list_attr} has an unrecognised shape: {src(v)}")
     seq = inline(seq, rt)
     if isinstance(seq, ast.Call) and isinstance(seq.func, ast.Name) and seq.func.id == "cast" and len(seq.args) == 2:
         seq = seq.args[1]
@@ -890,6 +970,10 @@ def displaybpm_rule(ctx: Ctx) -> None:
                     if e2.kind == "expr" and e.line in e2.loops and isinstance(e2.value, ast.Call) and isinstance(e2.value.func, ast.Attribute) and e2.value.func.attr == "append" \
                             and isinstance(e2.value.func.value, ast.Name) and len(e2.value.args) == 1 and ast.unparse(e2.value.args[0]) == f"{e.target.id}.value":
                         Bs.add(e2.value.func.value.id)
+            if e.kind == "bind" and isinstance(e.target, ast.Name) and isinstance(e.value, ast.ListComp) and len(e.value.generators) == 1 and not e.value.generators[0].ifs \
+                    and isinstance(e.value.generators[0].target, ast.Name) and ast.unparse(e.value.generators[0].iter) == f"BeatValues.from_str({x}['BPMS'])" \
+                    and ast.unparse(e.value.elt) == f"{e.value.generators[0].target.id}.value":
+                Bs.add(e.target.id)
     ctx.expect("R-TABLE", f, "the BPM values are those of the chosen source's BPMS", len(Bs) == 1, str(sorted(Bs)), f"no list of '<event>.value for event in BeatValues.from_str({x}[\'BPMS\'])' found", node=f.node)
     if len(Bs) != 1:
         return
@@ -988,6 +1072,17 @@ def coalesce_coherence(ctx: Ctx) -> None:
         return out
 
     if not any(stores_on(n.id) for n in cfg.nodes if any(n.ast is x or (n.ast is not None and any(y is n.ast for y in ast.walk(x))) for x in lp.body)):
+        # the (start, end)-pairs representation: the compared boundary must be the last pair's end, read from the list itself
+        from .tables import sums_of as _ts_c, closed as _cl_c
+        bounds = set()
+        for s_ in _ts_c(ctx, f):
+            for k_ in s_.plain_assign():
+                if ".beat" in k_ and "[-1]" in k_:
+                    bounds.add(k_)
+        pair_lists = {b_.split("[-1]")[0].split()[-1].lstrip("(") for b_ in bounds}
+        if bounds and len(pair_lists) == 1 and all("[-1][1]" in b_ for b_ in bounds):
+            ctx.ok("R-SINGLE", f, "the compared boundary is read from the last segment's end in the same iteration", sorted(bounds)[0], node=lp)
+            return
         raise AnalysisError(f"{f.fq}: the WARP_END list '{ends}' is not written while the warps are walked - the segments are kept in another representation, which this rule does not model")
     if isinstance(X, ast.Name):
         bs = loc.b.get(X.id, [])
